@@ -48,7 +48,16 @@ def run(ctx):
     repo = ctx.repo
     # ---- R2: the journal ----------------------------------------------------
     fn, g, where = fn_cfg(ctx, TR, "_FileMover.rename")
-    osr = need(where, calling(g, name="os.rename"), "os.rename")
+    def physical(c):
+        # os.rename itself, or a same-class helper whose body performs it
+        if call_name(c) == "os.rename":
+            return True
+        if call_recv(c) == "self":
+            h = repo.module(TR).get("_FileMover." + (call_attr(c) or ""))
+            return h is not None and any(call_name(x) == "os.rename" for x in calls_in(h))
+        return False
+
+    osr = need(where, calling(g, argpred=physical), "os.rename (directly or through a helper)")
     app = need(where, calling(g, attr="append", recv="self.past_renames"), "past_renames.append")
     cut = {(r, b, l) for r in osr for (b, l) in g.succ[r] if l != "X"}
     ok = not (set(app) & g.copy_without(cut).reachable_from_entry())
@@ -58,8 +67,13 @@ def run(ctx):
     ok, w = g.without_exc_edges().always_after(osr, app, exits=[g.exit])
     ctx.check("R2-journal-after-rename", where, ok, "every successful rename is journalled", witness=g.show_path(w) if w else None)
     fn, g, where = fn_cfg(ctx, TR, "_FileMover.pre_delete")
-    ren = need(where, calling(g, attr="rename", recv="self"), "self.rename")
     pend = need(where, calling(g, attr="append", recv="self.pending_deletions"), "pending_deletions.append")
+    ren = calling(g, attr="rename", recv="self")
+    if not ren:
+        ctx.check("R2-predelete-journalled", where, False, "pre_delete moves the file aside through self.rename()", message="pre_delete no longer goes through self.rename(): the move is missing from the single past_renames journal, so rollback cannot undo it in the right order")
+        ren = pend
+    else:
+        ctx.check("R2-predelete-journalled", where, True, "pre_delete moves the file aside through self.rename() (journalled in past_renames)")
     k1_before(ctx, "R2-predelete-renames-first", where, g, ren, pend, "pre_delete moves the file aside (journalled) before recording the deletion")
     ctx.check("R2-predelete-renames-first", where, not [c for c in calls_in(fn) if call_name(c) in FORBIDDEN], "pre_delete deletes nothing itself")
     fn = repo.func(TR, "_FileMover.rollback")
@@ -87,6 +101,24 @@ def run(ctx):
             bad = [norm(c)[:70] for c in calls_in(fn) if call_name(c) in FORBIDDEN]
             nm = len([c for c in calls_in(fn) if call_recv(c) == "mover"])
             ctx.check("R1-journalled-only", where, not bad and nm >= 1, f"all name changes go through the mover ({nm} mover calls, 0 direct)", construct="; ".join(bad), message="direct file-system rename/delete bypasses the journal (cannot be rolled back): " + "; ".join(bad))
+        # ---- R1b: removed contents are always parked through the journal ----------
+        fnr = repo.func(rel, f"{cls}._apply_removals")
+        gr = build_cfg(fnr)
+        wherer = f"{rel}:{cls}._apply_removals"
+        tests = [n.id for n in gr.nodes if n.kind == "test" and isinstance(n.ast, ast.Compare) and "_removed_contents" in norm(n.ast) and isinstance(n.ast.ops[0], ast.In)]
+        pd = calling(gr, attr="pre_delete", recv="mover")
+        ok = bool(tests) and bool(pd)
+        w = None
+        for t in tests:
+            starts = [b for (b, l) in gr.succ[t] if l == "T"]
+            loop = gr.loops_of(t)
+            ends = ([loop[-1]] if loop else []) + [gr.exit]
+            got = gr.reach(starts, avoid=pd, include_src=True)
+            bad = [e for e in ends if e in got]
+            if bad:
+                ok = False
+                w = gr.path(starts, bad, avoid=pd)
+        ctx.check("R1b-removed-content-parked", wherer, ok, "every entry whose content is removed is moved aside with mover.pre_delete (journalled) on every path", message="content scheduled for removal can be left in place (later overwritten outside the journal): a failure afterwards cannot restore it", witness=gr.show_path(w) if w else None)
         # ---- R3 / R4 on apply ---------------------------------------------------
         fn = repo.func(rel, f"{cls}.apply")
         where = f"{rel}:{cls}.apply"
